@@ -500,6 +500,37 @@ def _all_subclasses(c):
     return out
 
 
+def short_lived_implementations(chk):
+    """implementations registered for one read and dropped (their addresses are re-used by the next one), alternately with and without the `cycle`
+    parameter: every one is called the way its own signature asks for - an identical fresh computation gives the identical result"""
+    import gc
+    from typing import Any
+    from pyroll.core.hooks import Hook, HookHost
+
+    class K(HookHost):
+        v = Hook[Any]()
+    for i in range(80):
+        if i % 2:
+            def f(self, i=i):
+                return 10 + i
+            want = 10 + i
+        else:
+            def f(self, cycle, i=i):
+                return None if cycle else 20 + i
+            want = 20 + i
+        chk.cov['evaluations'] += 1
+        try:
+            with K.v(f):
+                got = K().v
+        except Exception as e:      # noqa
+            got = f"{type(e).__name__}: {e}"
+        del f
+        gc.collect()
+        if got != want:
+            return chk.fail('reproducible', f"implementations registered for one read and dropped, alternately with and without the cycle parameter: number {i} "
+                            f"({'plain' if i % 2 else 'cycle-aware'}) gives {got!r}, expected {want}", {'case': 'short-lived implementations', 'i': i})
+
+
 def run(chk):
     chk.coq.add_prop_file('C05.v')
     chk.coq.compile('C05.v', is_props=True, timeout=300)
@@ -549,6 +580,8 @@ def run(chk):
     # max_iteration_count - 1 iterations) that the property leaves open
     if not chk.failures:
         root_vector_oracle(chk, rng)
+    if not chk.failures:
+        short_lived_implementations(chk)
     if not chk.failures:
         reconfigured_limit_oracle(chk)
     real_runs(chk)
